@@ -1,17 +1,21 @@
 """Header syntax constants (rowparser.py RowParser), the attribute names pydantic refuses as
-field names of a ParserModel, and the interpreter's non-ASCII decimal digits (int())."""
+field names of a ParserModel, and the interpreter's non-ASCII decimal digits (int()).
+
+HOW IT READS (DESIGN §2.5a): RUNTIME VALUES only — class attributes of the live `RowParser`, `dir()` of the
+live `ParserModel`, `unicodedata` of the running interpreter.  headerSeparators is the triple
+[field, type annotation, default value] separator (by role: order exact); the shadowing names are a set
+(sorted); the digit zeros ascend."""
 import unicodedata
 
-from ..extract_tables import _assign_value, _find_class, _parse, lean_char, lean_str_list
+from .. import t1lib
+from ..extract_tables import lean_char, lean_str_list
 
 
 def tables() -> str:
-    mod = _parse("parsers/common/rowparser.py")
-    cls = _find_class(mod, "RowParser")
-    seps = [_assign_value(cls, k) for k in ("HEADER_FIELD_SEPARATOR", "TYPE_ANNOTATION_SEPARATOR", "DEFAULT_VALUE_SEPARATOR")]
+    rp = t1lib.load("rpft.parsers.common.rowparser")
+    seps = [getattr(rp.RowParser, k) for k in ("HEADER_FIELD_SEPARATOR", "TYPE_ANNOTATION_SEPARATOR", "DEFAULT_VALUE_SEPARATOR")]
     assert all(isinstance(s, str) and len(s) == 1 for s in seps), seps
-    from rpft.parsers.common.rowparser import ParserModel
-
+    ParserModel = rp.ParserModel
     shadow = sorted(n for n in dir(ParserModel) if not n.startswith("_") and getattr(ParserModel, n, None))
     zeros = [c for c in range(128, 0x110000) if unicodedata.decimal(chr(c), None) == 0]
     n_dec = sum(1 for c in range(128, 0x110000) if unicodedata.decimal(chr(c), None) is not None)
